@@ -122,6 +122,22 @@ func (c *Calcium) doCreateWorkloads(ctx context.Context, opts *types.DeployOptio
 						return err
 					}
 
+					// the rollback step of the transaction is skipped when this step fails,
+					// so what has been allocated before the failure is given back here (still under the pod locks)
+					allocatedNodes := []string{}
+					defer func() {
+						if err == nil {
+							return
+						}
+						rollbackCtx, cancel := context.WithTimeout(utils.NewInheritCtx(ctx), c.config.GlobalTimeout)
+						defer cancel()
+						for _, nodename := range allocatedNodes {
+							if e := c.rmgr.RollbackAlloc(rollbackCtx, nodename, workloadResourcesMap[nodename]); e != nil {
+								logger.Errorf(ctx, e, "failed to rollback allocated resource on %s", nodename)
+							}
+						}
+					}()
+
 					// commit changes
 					processingCommits = make(map[string]wal.Commit)
 					for nodename, deploy := range deployMap {
@@ -129,6 +145,7 @@ func (c *Calcium) doCreateWorkloads(ctx context.Context, opts *types.DeployOptio
 						if workloadResourcesMap[nodename], engineParamsMap[nodename], err = c.rmgr.Alloc(ctx, nodename, deploy, opts.Resources); err != nil {
 							return err
 						}
+						allocatedNodes = append(allocatedNodes, nodename)
 						processing := opts.GetProcessing(nodename)
 						if processingCommits[nodename], err = c.wal.Log(eventProcessingCreated, processing); err != nil {
 							return err
